@@ -15,11 +15,11 @@ E1NOTE = ("trusted base: simulated chain / Lightning node / wallets / messenger 
           "go1.26.8 testing/synctest virtual time; sync import rewritten to verif/vsync by overlay")
 
 claim("C06", "model_checking", "fsmx",
-      "explicit-state BFS by replay over the real swap.SwapService (two real nodes, adversarial network, payment outcomes, faults, crash at every effect op, restarts); monitor on every coop_close",
+      "explicit-state BFS by replay over the real swap.SwapService (two real nodes, adversarial network, payment outcomes, faults, crash at every effect op, restarts); monitor on every coop_close ; two fair continuations after a paid claim (with and without restart) ; sub-check: the real CLN RecoverClaimPayment over a fake lightningd socket, every list of 0..3 sendpay attempts x waitsendpay outcome",
       "Exhaustive enumeration of all histories up to the stated depth / deviation bounds of two real swap services on a simulated world; every coop_close the taker sends is checked against the ground-truth payment table, and every state in which the payment succeeded is driven through a fair continuation.",
       E1NOTE, "DESIGN.md §5 C06")
 claim("C13", "model_checking", "fsmx",
-      "explicit-state BFS by replay with a crash point at every effect operation; monitor over the ordered log of durable writes and sends ; deviation: the persisted record loses its anchor and the node recovers from it",
+      "explicit-state BFS by replay with a crash point at every effect operation; monitor over the ordered log of durable writes and sends ; deviation: the persisted record loses its anchor and the node recovers from it ; sub-check: stateless DFS over thread schedules (own cooperative scheduler, bounded preemptions) of two / three concurrent deliveries of the same request",
       "All histories (bounded) of both Liquid taker roles incl. crash at every store write / service call and restarts; the oracle checks that the latest durable record carries the anchor when the pubkey first leaves and that it never changes. A record without anchor must never lead to a payment nor get an anchor later.",
       E1NOTE, "DESIGN.md §5 C13")
 claim("C15", "fault_enumeration", "fsmx",
@@ -44,11 +44,11 @@ claim("C09", "model_checking", "fsmx",
       "Every message type from counterparty and third party, with the id of the target swap or a fresh id, is delivered in every reachable state of every role (also between Start and RecoverSwaps); anything the statement does not admit must leave every swap byte-identical.",
       E1NOTE, "DESIGN.md §5 C09")
 claim("C10", "model_checking", "fsmx",
-      "explicit-state BFS over sequences of local initiations and incoming requests in both channel-id spellings, time-outs and restarts (count of non-terminal swaps per normalised channel id after every event) + stateless DFS over all thread schedules (<=2/3 preemptions, own cooperative scheduler) of RecoverSwaps || request / local initiation, and of two concurrent initiations, on one channel",
+      "explicit-state BFS over sequences of local initiations and incoming requests in both channel-id spellings, time-outs and restarts (count of non-terminal swaps per normalised channel id after every event) + stateless DFS over all thread schedules (<=2/3 preemptions, own cooperative scheduler) of RecoverSwaps || request / local initiation, and of two concurrent initiations, on one channel ; k-th store write of a recovery may fail",
       "All sequences (bounded) of initiations / requests / finishes / restarts on one channel in both spellings on the real service; the invariant is evaluated on the store after every event. Concurrency: every schedule within the preemption bound of a recovery racing with a request or a local initiation for the same channel, and of two racing initiations; afterwards the store must hold at most one non-terminal swap on the channel and a non-terminal restored swap must be active.",
       E1NOTE, "DESIGN.md §5 C10")
 claim("C16", "model_checking", "fsmx",
-      "explicit-state BFS to enumerate start states (all four roles, two chains, faults, crash at every effect op) + deterministic fair drain from every one of them",
+      "explicit-state BFS to enumerate start states (all four roles, two chains, faults, crash at every effect op) + deterministic fair drain from every one of them ; sub-check: CSV-registration families of the real-watcher block-history BFS, followed by healthy services, a daemon restart (new watcher, watch registered again) and further blocks: maturity must be reported",
       "Every state reached by the bounded search is a start state from which the peer goes silent; a deterministic fair continuation (time, blocks to CSV maturity, restarts, healthy services) must reach a terminal state with the channel released. Exhaustive over the enumerated start states, not a fairness-quantified liveness proof.",
       E1NOTE, "DESIGN.md §5 C16")
 claim("C17", "model_checking", "fsmx",
@@ -56,7 +56,7 @@ claim("C17", "model_checking", "fsmx",
       "All orders (bounded) of request / agreement / cancel / timeout / restart before the opening transaction for both requester roles and the swap-out responder; cancel state and cancel message are required once 10 virtual minutes have passed. ",
       E1NOTE, "DESIGN.md §5 C17")
 claim("C22", "model_checking", "fsmx",
-      "explicit-state BFS of maker histories after the announcement under virtual time; interval-agnostic monitor on the send instants of opening_tx_broadcasted",
+      "explicit-state BFS of maker histories after the announcement under virtual time; interval-agnostic monitor on the send instants of opening_tx_broadcasted (failed sends count as attempts; up to 25 consecutive send failures) ; sub-check: stateless DFS over thread schedules of recovery || message handling on the real Manager, then an AddSender probe: nothing may still be registered for a finished swap",
       "All maker histories (bounded) after the announcement interleaved with virtual-time steps; the real RedundantMessenger / Manager run on the fake clock and the oracle checks one arithmetic progression while waiting and at most one already-due copy afterwards.",
       E1NOTE, "DESIGN.md §5 C22")
 claim("C02", "model_checking", "enum",
@@ -76,11 +76,11 @@ claim("C24", "model_checking", "enum",
       "Exhaustive over the stated grids; the produced route / SendPaymentRequest is compared with the single-hop / single-part / swap-channel predicate of the statement.",
       ENUMNOTE + "; fake lnrpc / routerrpc clients", "DESIGN.md §5 C24")
 claim("C25", "model_checking", "enum",
-      "explicit-state BFS over policy operation sequences (incl. reload and restart) x initial file contents on the real policy.Policy against a two-set reference model",
+      "explicit-state BFS over policy operation sequences (incl. reload and restart) x initial file contents on the real policy.Policy against a two-set reference model ; sub-check: stateless DFS over thread schedules (bounded preemptions) of every unordered pair of the 7 policy operations on one key, linearizability against the two sequential orders of the same code",
       "All operation sequences up to the bound (thorough: until the reachable state space closes) from nine initial file shapes; after every operation memory, file and a policy re-created from the file agree with the model.",
       ENUMNOTE, "DESIGN.md §5 C25")
 claim("C27", "model_checking", "enum",
-      "grid enumeration of amount x rate against a big-integer reference; explicit-state BFS over rate operations on the real bbolt-backed premium.Setting; advertised-vs-charged comparison through the real PeerSync",
+      "grid enumeration of amount x rate against a big-integer reference; explicit-state BFS over rate operations on the real bbolt-backed premium.Setting; advertised-vs-charged comparison through the real PeerSync ; the state key of the BFS includes a digest of the bbolt file, reads are operations",
       "Exhaustive for the stated grids and operation alphabets up to the stated depth.",
       ENUMNOTE, "DESIGN.md §5 C27")
 claim("C28", "model_checking", "enum",
@@ -104,15 +104,15 @@ claim("C01", "model_checking", "fsmx",
       "Exhaustive (bounded) exploration of the real taker state machines and the real Bitcoin validator against every enumerated malicious announcement; the statement's predicate is evaluated from chain ground truth at the instant of every payment attempt. The real onchain.LiquidOnChain.ValidateTx is run on every invalid-opening variant x layouts x amounts; the real chain watchers are explored over all block histories (reorgs, faults, mid-call changes) and a confirmation reported for an absent / unconfirmed / too shallow transaction is a C01 violation.",
       ADVNOTE, "DESIGN.md §5 C01")
 claim("C04", "model_checking", "fsmx",
-      "explicit-state BFS of both Liquid taker roles (tip moved between all steps, invoice CLTV grid, restarts, records rewritten to protocol 6 and recovered; pay-loop families starting in the paying state with failing / pending first attempts and crash points after every durable write) with an oracle at every payment attempt + grid enumeration of both route/request builders",
+      "explicit-state BFS of both Liquid taker roles (tip moved between all steps, invoice CLTV grid, restarts, records rewritten to protocol 6 and recovered; pay-loop families starting in the paying state with failing / pending first attempts and crash points after every durable write) with an oracle at every payment attempt + grid enumeration of both route/request builders ; sub-check: block-history BFS of the real rpc watcher followed by a backend outage (all RPCs fail, chain grows): the height answered must be true or an error",
       "All histories (bounded) with the Liquid tip moved across the window edges between any two steps; window, anchor, invoice CLTV and route limit are checked at every attempt; protocol-6 records must never create a payment. Builders enumerated over the CLTV grid.",
       ADVNOTE, "DESIGN.md §5 C04")
 claim("C05", "model_checking", "fsmx",
-      "explicit-state BFS of both Bitcoin taker roles against the scripted maker (confirmation before/after the start height, blocks between all steps incl. pay retries, restarts, invoice CLTV grid, CLN and LND allowances; pay-loop families starting in the paying state with crash points after every durable write); inequality oracle at every payment attempt",
+      "explicit-state BFS of both Bitcoin taker roles against the scripted maker (confirmation before/after the start height, blocks between all steps incl. pay retries, restarts, invoice CLTV grid, CLN and LND allowances; pay-loop families starting in the paying state with crash points after every durable write); inequality oracle at every payment attempt ; sub-checks on the real watchers: a confirmation reported for a transaction already a window deep, a stale height answered during a backend outage",
       "Every payment attempt in every explored history is checked for h_pay + route allowance < confirmation height + 1008.",
       ADVNOTE, "DESIGN.md §5 C05")
 claim("C26", "model_checking", "fsmx",
-      "explicit-state BFS of both maker roles to every history ending in a CSV refund, with the real policy.Policy on a real file and a real peersync.PeerSync; probes after the refund, also after a restart ; up to two operator actions on the running policy before the refund; well-formed and unparseable capability payloads; crash points after durable writes, the policy write being one",
+      "explicit-state BFS of both maker roles to every history ending in a CSV refund, with the real policy.Policy on a real file and a real peersync.PeerSync; probes after the refund, also after a restart ; up to two operator actions on the running policy before the refund; well-formed and unparseable capability payloads; crash points after durable writes, the policy write being one ; the peer-sync instance lives as long as the swap service and may have talked to the peer before the refund; the operator may take the peer off the allow-list after the refund",
       "In every state reached after a CSV refund the policy file, a policy re-created from it, incoming requests, local initiations and poll / request_poll handling are probed. ",
       E1NOTE + "; real policy file and real bbolt peer store", "DESIGN.md §5 C26")
 
@@ -133,7 +133,7 @@ claim("C11", "model_checking", "enum",
       "Full product over the interacting dimensions and all single / pairwise deviations of the others; the first reply (agreement vs cancel) is compared with the conjunction in the statement.",
       E1NOTE, "DESIGN.md §5 C11")
 claim("C12", "model_checking", "enum",
-      "boundary-grid enumeration (incl. int64 / uint64 extremes) of premiums, limits, amounts, fee invoices through the real initiator and responder code paths with a scripted peer; big-integer outflow bounds + sub-check: operation-sequence BFS on the real premium.Setting (set / delete / default / lookup / reopen) against a persistent-map reference",
+      "boundary-grid enumeration (incl. int64 / uint64 extremes) of premiums, limits, amounts, fee invoices through the real initiator and responder code paths with a scripted peer; big-integer outflow bounds + sub-check: operation-sequence BFS on the real premium.Setting (set / delete / default / lookup / reopen) against a persistent-map reference ; sub-check: explicit-state BFS of a taker with restarts against the scripted maker, the amount paid after recovery is still amount + premium",
       "Every grid point is run through the real actions; payments, locked amounts and created invoices are compared with big-integer bounds. The rate the responder charges after any sequence of rate operations and reads is compared with the reference map.",
       E1NOTE, "DESIGN.md §5 C12")
 claim("C18", "model_checking", "sched",
